@@ -48,12 +48,15 @@ def shifts_and_products(F, S):
                 out.append(bad("R-TAINT", inst, rb.loc(nd["id"]), rb.qn, req, "facts: " + facts_txt(site)))
             if nd["fname"] == "TileCount":
                 # 32-bit result: the 64-bit product must have been refused above UINT32_MAX
-                good = any(f[0] == "<=" and f[2] == ("const", 0xffffffff) and f[1][0] == "op" and f[1][1] == "<<" and "heightInTiles" in repr(f[1][2]) and f[1][3] == lg
-                           for f in site)
+                prod = ("op", "<<", ("mem", hdr, "heightInTiles"), lg)
+                good = prove_le(site, prod, ("const", 0xffffffff))
+                # the guarded product is formed in 64 bits (in this function or in the helper that holds the guard)
                 wide = False
-                for x in rb.nodes:
-                    if x["k"] == "BinaryOperator" and x.get("op") == "<<" and x.get("iw") == 64 and "heightInTiles" in repr(rb.term(x["id"])):
-                        wide = True
+                scope = [rb] + [c for x in rb.nodes if x["k"] in CALLS for c in F.callees(x) if c.cfg and not c.cls and "/Map/" in c.file]
+                for f2 in scope:
+                    for x in f2.nodes:
+                        if x["k"] == "BinaryOperator" and x.get("op") == "<<" and x.get("iw") == 64 and "heightInTiles" in repr(f2.term(x["id"])):
+                            wide = True
                 inst = "%s::ReadMapBeginning#tile-count-fits" % M
                 req = "height << lgWidth, formed in 64 bits, is refused above UINT32_MAX before the 32-bit TileCount() sizes the tile array"
                 if good and wide:
